@@ -224,7 +224,7 @@ def run_driver_case(case, script=None):
     pit_names = [v[1] for v in case["vars"]][:case["n_pit_names"]]
     filt_rows = np.array(case["filt_rows"], dtype=np.int64)
     n_rest = min(len(names), len(pit_names), case["n_pairs"]) if auto else 0
-    executed, codes, state = [], [], {}
+    executed, codes, state, alphas = [], [], {}, []
 
     def loc(i):
         nm, pit, filt = case["vars"][i]
@@ -233,6 +233,7 @@ def run_driver_case(case, script=None):
         return net["_active_pit"][pit], rows, col
 
     def read_codes():
+        alphas.append(float(net["_options"]["alpha"]))      # alpha in force before the next call
         if not executed:
             return
         pairs, _ = executed[-1]
@@ -277,7 +278,7 @@ def run_driver_case(case, script=None):
         for k in range(n_it):
             hist.append([float(ir[nm][k]) for nm in names])
     return {"exception": exc, "converged": bool(net.converged), "niter": int(ir.get("iterations_x", -1)),
-            "alpha": float(net["_options"]["alpha"]), "hist": hist, "codes": codes,
+            "alpha": float(net["_options"]["alpha"]), "hist": hist, "codes": codes, "alphas": alphas,
             "residual_norm": (None if ir.get("residual_norm_x", None) is None else float(ir["residual_norm_x"])),
             "script": [([(list(n), list(o)) for n, o in p], list(r)) for p, r in executed]}
 
@@ -338,8 +339,25 @@ def driver_oracle(case, res):
                             % (rn, case["tol_res"])))
             if auto and res["alpha"] != 1:
                 bad.append(("converged_implies_last_within_tol", "converged with damping factor %r" % res["alpha"]))
+    # a NaN change that was let through is the root cause of whatever else the same run shows
+    bad.sort(key=lambda b: 0 if b[0] == "nan_never_counts" else 1)
     if auto and case["alpha0"] in (1.0, 0.1, 0.01) and res["alpha"] not in (1.0, 0.1, 0.01):
         bad.append(("alpha_ladder", "alpha left the ladder: %r" % res["alpha"]))
+    if auto and case["alpha0"] in (1.0, 0.1, 0.01) and len(res.get("alphas", [])) == n + 1:
+        al = res["alphas"]                       # al[k] before iteration k, al[k+1] after it
+        for k in range(n):
+            cur = res["hist"][k]
+            prev = res["hist"][k - 1] if k else cur
+            all_grew = all(c > p for c, p in zip(cur, prev))
+            if al[k + 1] < al[k] and not all_grew:
+                bad.append(("alpha_ladder", "iteration %d: alpha fell from %r to %r although not every error grew "
+                            "(errors %r after %r)" % (k, al[k], al[k + 1], cur, prev)))
+            if not all_grew and al[k + 1] != min(1.0, {1.0: 10.0, 0.1: 1.0, 0.01: 0.1}.get(al[k], -1.0)):
+                bad.append(("alpha_ladder", "iteration %d: no rejection, alpha went from %r to %r instead of one "
+                            "step up the ladder" % (k, al[k], al[k + 1])))
+            if all_grew and al[k + 1] != {1.0: 0.1, 0.1: 0.01, 0.01: 0.01}.get(al[k], -1.0):
+                bad.append(("alpha_ladder", "iteration %d: every error grew, alpha went from %r to %r instead of one "
+                            "step down the ladder" % (k, al[k], al[k + 1])))
     if not auto and res["alpha"] != case["alpha0"]:
         bad.append(("alpha_ladder", "alpha changed under %s: %r" % (case["method"], res["alpha"])))
     if auto:
